@@ -21,6 +21,7 @@ func runC07(r *Report, tier string) {
 	r.rule("R07.2", "non-minimal bstr heads are normalised, not refused: R02.3 (included below).")
 	r.rule("R07.3", "no narrowing of the decoder: MaxNestedLevels/MaxArrayElements/MaxMapPairs unset, UTF8 not tightened, and no function on a decode path compares its input with a re-encoding of the decoded value (canonical-form enforcement; expected count 0).")
 	r.rule("R07.4", "both empty-header spellings have an accepting path: the protected-bucket decoder succeeds for the zero-length byte string, and its map arm places no guard on the size of the decoded map.")
+	r.rule("R07.6", "(reported under R07.5) the content of the protected bstr is decoded only with a mode that admits tags (tags are excluded from the envelope and unprotected values only); the countersignature header value is refused only after both its single-object and its list form failed to decode.")
 	r.rule("R07.5", "type guards are exact major-type tests: the bucket decoders and the bstr/nil decoder test data[0]>>5 against 5 resp. 2 (so every head width of a map / byte string passes), the label scan admits all of major types 0, 1, 3 (R05.5/R05.6 obligations, included here).")
 	r.assumes("acceptance of every valid encoder choice is decided by the CBOR library (A1) and verification of third-party signatures by crypto/*; this claim covers only what the repository must do for the property to be possible")
 
@@ -120,6 +121,10 @@ func mutC07() []mutant {
 			Old: "\tif err := sig.Headers.UnmarshalFromRaw(); err != nil {\n\t\treturn err\n\t}\n\n\t*s = sig", New: "\tif err := sig.Headers.UnmarshalFromRaw(); err != nil {\n\t\treturn err\n\t}\n\tif canon, err := encMode.Marshal(sig.Headers.Protected); err != nil || !bytes.Equal(canon, raw.Protected) {\n\t\treturn errors.New(\"cbor: non-canonical protected header\")\n\t}\n\n\t*s = sig"},
 		{Name: "empty protected bstr refused", File: "headers.go", Rule: "R07.4",
 			Old: "\tif len(encoded) == 0 {\n\t\t*h = make(ProtectedHeader)\n\t} else {", New: "\tif len(encoded) == 0 {\n\t\treturn errors.New(\"cbor: empty protected header\")\n\t} else {"},
+		{Name: "label scan of the protected bucket forbids tagged values", File: "headers.go", Rule: "R07.5", Key: "content-mode",
+			Old: "\tvar header map[headerLabelValidator]discardedCBORMessage\n\treturn decMode.Unmarshal(data, &header)", New: "\tvar header map[headerLabelValidator]discardedCBORMessage\n\treturn decModeWithTagsForbidden.Unmarshal(data, &header)"},
+		{Name: "countersignature list form not tried for 3-element heads", File: "headers.go", Rule: "R07.5", Key: "refusal",
+			Old: "\tvar result2 []*Countersignature\n\terr = decMode.Unmarshal(value, &result2)\n\tif err == nil {\n\t\treturn result2, nil\n\t}\n", New: "\tif len(value) > 0 && value[0] != 0x83 {\n\t\tvar result2 []*Countersignature\n\t\terr = decMode.Unmarshal(value, &result2)\n\t\tif err == nil {\n\t\t\treturn result2, nil\n\t\t}\n\t}\n"},
 		{Name: "protected map guard tests the head byte range", File: "headers.go", Rule: "R07.5",
 			Old: "\t\tif encoded[0]>>5 != 5 { // major type 5: map", New: "\t\tif encoded[0] < 0xa0 || encoded[0] > 0xb7 { // major type 5: map"},
 		{Name: "empty decoded map refused", File: "headers.go", Rule: "R07.4",
